@@ -397,7 +397,10 @@ def westfall_young(data, test, method="minP", alternatives="greater",
             prev_i = [*sorted_t][0]
             for i in [*sorted_t]:
                 # replace test stats with successive maxima
-                tv[i][b] = max(np.abs(tv[i][b]), np.abs(tv[prev_i][b]))
+                # two-sided tests use absolute values, one-sided tests signed statistics;
+                # tv[prev_i][b] already holds the successive maximum of the previous hypotheses
+                cur = np.abs(tv[i][b]) if alternatives[i] == "two-sided" else tv[i][b]
+                tv[i][b] = max(cur, tv[prev_i][b])
                 prev_i = i
         # compute adjusted p-values
         for c in range(len(test)): 
